@@ -73,12 +73,20 @@ theorem readBlock_stored (files : Files) (ic ib : Bool) (fuel : Nat) (bytes : By
 
 def plainOf (blks : List DataBlk) : Bytes := blks.flatMap (·.payload)
 
-/-- the feeder stands in a stored folder of one cabinet file: `blks` are the blocks not yet read, `R` the
-    plaintext not yet handed out (what is buffered, then the remaining payloads) -/
-structure FeedInv (fd : Feeder) (blks : List DataBlk) (R : Bytes) : Prop where
-  rd     : ∃ bytes pos rest, fd.rd = some ⟨bytes, pos⟩ ∧ bytes.drop pos = blks.flatMap encData ++ rest
+/-- where a run of well-formed blocks lies: the cabinet file, the bytes that follow the run, the number of blocks
+    in the run -/
+structure Lay where
+  file  : Bytes
+  tail  : Bytes
+  total : Nat
+
+/-- the feeder stands in a stored folder of one cabinet file: `blks` are the blocks of the run not yet read, `R` the
+    plaintext not yet handed out (what is buffered, then the remaining payloads); the folder may declare more
+    blocks than the run has (what follows the run is `L.tail`) -/
+structure FeedInv (L : Lay) (fd : Feeder) (blks : List DataBlk) (R : Bytes) : Prop where
+  rd     : ∃ pos, fd.rd = some ⟨L.file, pos⟩ ∧ L.file.drop pos = blks.flatMap encData ++ L.tail
   parts  : ∃ part more, fd.parts = part :: more ∧ part.blockResv = 0
-  count  : fd.block + blks.length = fd.numBlocks
+  count  : fd.block + blks.length = L.total ∧ L.total ≤ fd.numBlocks
   comp   : compMask fd.compType = 0
   wf     : ∀ b ∈ blks, b.wf
   rest   : R = fd.buf ++ plainOf blks
@@ -101,9 +109,9 @@ theorem serve_split (a P : Bytes) (todo : Nat) :
     · rw [h1, h2, List.nil_append, List.drop_append]; rw [h2]; rfl
     · rw [h1, h2, List.nil_append]; rw [List.length_append] at h; omega
 
-theorem feederRead_stored (files : Files) : ∀ (fuel : Nat) (fd : Feeder) (blks : List DataBlk) (R : Bytes) (todo : Nat) (got : Bytes),
-    FeedInv fd blks R → todo ≤ R.length → ((todo = 0 ∧ 1 ≤ fuel) ∨ 2 * blks.length + (if fd.buf = [] then 1 else 2) ≤ fuel) →
-    ∃ fd' blks', feederRead files fuel fd todo got = .ok (some (got ++ R.take todo), fd') ∧ FeedInv fd' blks' (R.drop todo) ∧
+theorem feederRead_stored (files : Files) (L : Lay) : ∀ (fuel : Nat) (fd : Feeder) (blks : List DataBlk) (R : Bytes) (todo : Nat) (got : Bytes),
+    FeedInv L fd blks R → todo ≤ R.length → ((todo = 0 ∧ 1 ≤ fuel) ∨ 2 * blks.length + (if fd.buf = [] then 1 else 2) ≤ fuel) →
+    ∃ fd' blks', feederRead files fuel fd todo got = .ok (some (got ++ R.take todo), fd') ∧ FeedInv L fd' blks' (R.drop todo) ∧
       fd'.numBlocks = fd.numBlocks ∧ fd'.salvage = fd.salvage ∧ fd'.fixMszip = fd.fixMszip := by
   intro fuel
   induction fuel with
@@ -129,9 +137,11 @@ theorem feederRead_stored (files : Files) : ∀ (fuel : Nat) (fd : Feeder) (blks
           have : R = [] := by rw [inv.rest, hb]; rfl
           rw [this] at htodo; simp at htodo; exact absurd htodo h0
         | cons b bs =>
-          obtain ⟨bytes, pos, rest, hrd, hdrop⟩ := inv.rd
+          obtain ⟨pos, hrd, hdrop⟩ := inv.rd
           obtain ⟨part, more, hparts, hres⟩ := inv.parts
           have hcount := inv.count
+          generalize hbytes : L.file = bytes at hrd hdrop
+          generalize hrest : L.tail = rest at hdrop
           have hbwf := inv.wf b (List.mem_cons_self ..)
           have hlt : ¬(fd.block ≥ fd.numBlocks) := by simp only [List.length_cons] at hcount; omega
           simp only [hlt, ↓reduceIte]
@@ -149,8 +159,8 @@ theorem feederRead_stored (files : Files) : ∀ (fuel : Nat) (fd : Feeder) (blks
             intro hnil; have := hbwf.1; rw [hnil] at this; simp at this
           let fd1 : Feeder := { fd with block := fd.block + 1, readError := .ok, rd := some ⟨bytes, pos + 8 + b.payload.length⟩,
                                         parts := part :: more, outlen := fd.outlen + b.payload.length, buf := b.payload }
-          have inv1 : FeedInv fd1 bs R := by
-            refine ⟨⟨bytes, _, rest, rfl, hdrop2⟩, ⟨part, more, rfl, hres⟩, ?_, inv.comp, fun x hx => inv.wf x (List.mem_cons_of_mem _ hx), ?_⟩
+          have inv1 : FeedInv L fd1 bs R := by
+            refine ⟨⟨_, by rw [hbytes], by rw [hbytes, hrest]; exact hdrop2⟩, ⟨part, more, rfl, hres⟩, ?_, inv.comp, fun x hx => inv.wf x (List.mem_cons_of_mem _ hx), ?_⟩
             · simp only [fd1, List.length_cons] at hcount ⊢; omega
             · rw [inv.rest, hb]; simp [plainOf, fd1]
           have hf1 : 2 * bs.length + (if fd1.buf = [] then 1 else 2) ≤ fuel := by
@@ -160,7 +170,7 @@ theorem feederRead_stored (files : Files) : ∀ (fuel : Nat) (fd : Feeder) (blks
       · -- serve from the buffer
         rw [if_pos (by simpa using hb)]
         let fd1 : Feeder := { fd with buf := fd.buf.drop todo }
-        have inv1 : FeedInv fd1 blks (fd1.buf ++ plainOf blks) := ⟨inv.rd, inv.parts, inv.count, inv.comp, inv.wf, rfl⟩
+        have inv1 : FeedInv L fd1 blks (fd1.buf ++ plainOf blks) := ⟨inv.rd, inv.parts, inv.count, inv.comp, inv.wf, rfl⟩
         have hR : R = fd.buf ++ plainOf blks := inv.rest
         obtain ⟨sp1, sp2, sp3⟩ := serve_split fd.buf (plainOf blks) todo
         have htodo1 : todo - (fd.buf.take todo).length ≤ (fd1.buf ++ plainOf blks).length := sp3 (hR ▸ htodo)
@@ -182,16 +192,16 @@ theorem take_take_drop (R : Bytes) (a n : Nat) (h : a ≤ n) : R.take a ++ (R.dr
   have : n = a + (n - a) := by omega
   rw [this, List.take_add]; simp
 
-theorem feederFuel_enough (fd : Feeder) (blks : List DataBlk) (R : Bytes) (inv : FeedInv fd blks R) :
+theorem feederFuel_enough (L : Lay) (fd : Feeder) (blks : List DataBlk) (R : Bytes) (inv : FeedInv L fd blks R) :
     2 * blks.length + (if fd.buf = [] then 1 else 2) ≤ feederFuel fd := by
   have := inv.count
   simp only [feederFuel]; split <;> omega
 
 /-- `noned_decompress` over a stored folder: exactly the next `bytes` bytes of the folder, status OK -/
-theorem noned_stored (files : Files) (bs : Nat) (hbs : 0 < bs) : ∀ (fuel : Nat) (fd : Feeder) (blks : List DataBlk) (R : Bytes) (bytes : Nat) (w : Bytes),
-    FeedInv fd blks R → bytes ≤ R.length → ((bytes = 0 ∧ 1 ≤ fuel) ∨ bytes / bs + 2 ≤ fuel) →
+theorem noned_stored (files : Files) (L : Lay) (bs : Nat) (hbs : 0 < bs) : ∀ (fuel : Nat) (fd : Feeder) (blks : List DataBlk) (R : Bytes) (bytes : Nat) (w : Bytes),
+    FeedInv L fd blks R → bytes ≤ R.length → ((bytes = 0 ∧ 1 ≤ fuel) ∨ bytes / bs + 2 ≤ fuel) →
     ∃ fd' blks', nonedDecompress files bs fuel fd bytes w = .ok ⟨.ok, w ++ R.take bytes, .none bs .ok, fd'⟩ ∧
-      FeedInv fd' blks' (R.drop bytes) := by
+      FeedInv L fd' blks' (R.drop bytes) ∧ fd'.numBlocks = fd.numBlocks ∧ fd'.salvage = fd.salvage := by
   intro fuel
   induction fuel with
   | zero =>
@@ -202,7 +212,7 @@ theorem noned_stored (files : Files) (bs : Nat) (hbs : 0 < bs) : ∀ (fuel : Nat
     intro fd blks R bytes w inv hb hf
     rw [nonedDecompress.eq_2]
     by_cases h0 : bytes = 0
-    · subst h0; rw [if_pos rfl]; exact ⟨fd, blks, by simp, by simpa using inv⟩
+    · subst h0; rw [if_pos rfl]; exact ⟨fd, blks, by simp, by simpa using inv, rfl, rfl⟩
     · rw [if_neg h0]
       have hf : bytes / bs + 2 ≤ fuel + 1 := by
         rcases hf with ⟨h, _⟩ | h
@@ -212,8 +222,8 @@ theorem noned_stored (files : Files) (bs : Nat) (hbs : 0 < bs) : ∀ (fuel : Nat
       generalize hrun : (if bytes > bs then bs else bytes) = run
       have hrl : run ≤ bytes := by rw [← hrun]; split <;> omega
       have hr0 : 0 < run := by rw [← hrun]; split <;> omega
-      obtain ⟨fd1, blks1, e1, inv1, _, _, _⟩ := feederRead_stored files (feederFuel fd) fd blks R run [] inv (by omega)
-        (Or.inr (feederFuel_enough fd blks R inv))
+      obtain ⟨fd1, blks1, e1, inv1, hn1, hs1, _⟩ := feederRead_stored files L (feederFuel fd) fd blks R run [] inv (by omega)
+        (Or.inr (feederFuel_enough L fd blks R inv))
       rw [e1]
       simp only [List.nil_append]
       have hlen : (R.take run).length = run := by rw [List.length_take]; omega
@@ -229,9 +239,9 @@ theorem noned_stored (files : Files) (bs : Nat) (hbs : 0 < bs) : ∀ (fuel : Nat
           have : run = bytes := by rw [← hrun, if_neg hc]
           have := Nat.zero_le (bytes / bs)
           omega
-      obtain ⟨fd2, blks2, e2, inv2⟩ := ih fd1 blks1 (R.drop run) (bytes - run) (w ++ R.take run) inv1
+      obtain ⟨fd2, blks2, e2, inv2, hn2, hs2⟩ := ih fd1 blks1 (R.drop run) (bytes - run) (w ++ R.take run) inv1
         (by rw [List.length_drop]; omega) hf1
-      refine ⟨fd2, blks2, ?_, ?_⟩
+      refine ⟨fd2, blks2, ?_, ?_, hn2.trans hn1, hs2.trans hs1⟩
       · rw [e2, List.append_assoc, take_take_drop R run bytes hrl]
       · rw [List.drop_drop] at inv2
         have : run + (bytes - run) = bytes := by omega
@@ -247,14 +257,15 @@ theorem plain_length_le (blks : List DataBlk) (hwf : ∀ b ∈ blks, b.wf) : (pl
     omega
 
 /-- one decoder call on a stored folder through `runPhase` -/
-theorem runPhase_stored (files : Files) (ds : DState) (bs : Nat) (hbs : 0 < bs) (blks : List DataBlk) (R : Bytes)
-    (inv : FeedInv ds.feeder blks R) (n : Nat) (hn : n ≤ R.length) :
-    ∃ ds' blks', runPhase files ds (.none bs .ok) n = .ran .ok (R.take n) ds' ∧ FeedInv ds'.feeder blks' (R.drop n) ∧
-      ds'.dec = some (.none bs .ok) ∧ ds'.offset = ds.offset + n := by
+theorem runPhase_stored (files : Files) (L : Lay) (ds : DState) (bs : Nat) (hbs : 0 < bs) (blks : List DataBlk) (R : Bytes)
+    (inv : FeedInv L ds.feeder blks R) (n : Nat) (hn : n ≤ R.length) :
+    ∃ ds' blks', runPhase files ds (.none bs .ok) n = .ran .ok (R.take n) ds' ∧ FeedInv L ds'.feeder blks' (R.drop n) ∧
+      ds'.dec = some (.none bs .ok) ∧ ds'.offset = ds.offset + n ∧ ds'.feeder.numBlocks = ds.feeder.numBlocks ∧
+      ds'.feeder.salvage = ds.feeder.salvage := by
   have hfuel : (n = 0 ∧ 1 ≤ n / max bs 1 + 2) ∨ n / bs + 2 ≤ n / max bs 1 + 2 := by
     right; rw [Nat.max_eq_left hbs]; exact Nat.le_refl _
-  obtain ⟨fd', blks', e, inv'⟩ := noned_stored files bs hbs (n / max bs 1 + 2) ds.feeder blks R n [] inv hn hfuel
-  refine ⟨{ ds with offset := ds.offset + (R.take n).length, feeder := fd', dec := some (.none bs .ok) }, blks', ?_, inv', rfl, ?_⟩
+  obtain ⟨fd', blks', e, inv', hn', hs'⟩ := noned_stored files L bs hbs (n / max bs 1 + 2) ds.feeder blks R n [] inv hn hfuel
+  refine ⟨{ ds with offset := ds.offset + (R.take n).length, feeder := fd', dec := some (.none bs .ok) }, blks', ?_, inv', rfl, ?_, hn', hs'⟩
   · unfold runPhase decompress
     simp only [ne_eq, not_true_eq_false, ↓reduceIte, e, Except.map, List.nil_append]
     rw [if_neg (by decide)]
